@@ -111,7 +111,15 @@ def main():
     for ci, spec in payload["specs"]:
         try:
             if spec.get("hard"):
-                out.setdefault("hard", []).append({"case": ci, "spec": spec, "res": one_hard(spec)})
+                try:
+                    res = one_hard(spec)
+                except G.GenFail:
+                    continue
+                except Exception as e:
+                    if spec["chain"] != "hop":
+                        raise
+                    res = {"err": 1e9, "exc": repr(e)[:200]}      # measured-only class: recorded, not demanded
+                out.setdefault("hard", []).append({"case": ci, "spec": spec, "res": res})
                 continue
             r = one(spec)
             if r is not None:
